@@ -108,7 +108,7 @@ PROPS = {
               "accepted soups), joined by a document end marker line; all ordered pairs of the hand-written list are enumerated; the H3 hook reports the scanner "
               "configuration at every document marker; non-trivial = at least 2 parts and one collection; distinct = distinct joined texts"),
         builds=[('rel', 1.0, 1.0)], must_observe=['concatenations', 'documents_compared', 'loads_compared', 'h3_events'],
-        assumptions=COMMON_ASSUME + ["parts that are rejected alone, do not end with a line break, start with a BOM or contain NUL are skipped, not asserted"]),
+        assumptions=COMMON_ASSUME + ["parts that are rejected alone, do not end with a line break or contain NUL (the end-of-input sentinel) are skipped, not asserted"]),
     'C16': dict(
         rule=("document sequences with 0-3 %TAG lines over the handles ! !! !e! !a-b! !x1! and local/global prefixes (with %-escapes), optional %YAML / reserved "
               "directives in random order, tags of every spelling (named, secondary, local, verbatim, non-specific; suffixes with 1-4 byte %-escapes and URI "
